@@ -9,6 +9,29 @@ READY = sys.argv[1:] or open(os.path.join(ROOT, "tools", "ready.txt")).read().sp
 
 HOOK_COMMITS = ["4306f7e", "2e01422"]
 
+# Streams added while the checks were validated against independently seeded changes (DESIGN.md
+# section 7); appended to the level text so that the manifest says what the commands run today.
+EXTRA = {
+ "C01": "Also: per-session generated policy lists with overlaps and empty lists; concurrent sessions with another party removing messages; multi-recipient transactions with one recipient's mailbox made unwritable (250 judged strictly).",
+ "C02": "Also: concurrent sessions with distinct bodies; a size-limited memory store with exact lengths around the limit; SIZE parameters; data sent without waiting for the 354; legacy charsets declared; the newest message also read under the id 'latest'.",
+ "C03": "Also: logical idle-timeout injection; bracket-soup arguments; one server wearing through many lost connections; sessions overlapping on one server with deliveries held inside Deliver; bursts of simultaneous connects on the real listener.",
+ "C04": "Also: long host names; the Go client, the per-mailbox WebSocket monitors (v1/v2) and POP3 login by name as read interfaces; recipients the harness policy refuses offered to the server.",
+ "C05": "Also: recipients sharing a mailbox with opposite store policy; an explicitly allowing extension; real Lua scripts that take no decision; composed wildcard arrangements; lists of up to 12 entries; web pages fetched around sessions; a dozen data shapes.",
+ "C06": "Also: discard-domain probes; a STARTTLS slice; HELO greetings; overlapping sessions with deliveries held inside Deliver (no byte of a refused message stored or on disk); SIZE values at the integer-type edges.",
+ "C07": "Also: alias ids (latest, +1, 002) as ids of messages that do not exist; a quarter of the sequences with a mailbox cap; the file store's id counter driven across its 9999->0000 wrap; a visitor called after returning false is a violation.",
+ "C08": "Also: a capped file-store mailbox whose content file was lost; deliveries declaring fewer bytes than they send.",
+ "C09": "Also: a keeper message exposing accounting drift; index files damaged behind the store while healthy mailboxes are used concurrently; owners cycling mailboxes that share hash directories.",
+ "C10": "Also: reopen with a changed cap; whole-service lifecycles (FullAssembly restart with an open POP3 session, retention 0); reopens and restarts that go straight on with the history without an immediate read.",
+ "C12": "Also: the real run loop and mid-scan cancellation; content files removed before the scan; mail received through the manager with lying Date headers; RetentionSleep 0 cancellation; hostile store directory names; a size-limited memory store with deliveries forcing evictions during the scan.",
+ "C13": "Also: logical idle-timeout endings; another party removing marked messages, purging or emptying the mailbox and delivering anew between two commands; delivery-based identity in the QUIT oracle.",
+ "C14": "Also: store-side removals; the Go client with a trailing-slash base URL; an API call while a delivery to the same mailbox is in flight.",
+ "C15": "Also: ids shared across mailboxes; an end-to-end stream (store -> manager -> extension host -> hub -> real socket listeners) with multi-recipient deliveries and faulty mailboxes; history lengths up to 2500.",
+ "C16": "Also: a conservation oracle for size evictions; clients racing on the same message/mailbox (boxrace); content-file faults in the file store; a hub listener attached for the whole history, also for messages that left the ring.",
+ "C17": "Also: script-level state across concurrent sessions.",
+ "C18": "Also: url( in every spelling; texts of 4 KiB to 4 MiB.",
+ "C19": "Also: implicit-TLS aborts; a RetentionSleep-0 scan cancelled inside a visit; full-assembly scenarios with maxkb; shutdown after a listener failed to start; a connection served while Drain waits; callers of an overfilled hub at shutdown.",
+}
+
 P = {
  "C01": ("exploration",
   "Real SMTP sessions (generated multi-transaction dialogues; every naming x store-policy x back-end combination; duplicate, aliased, exotic and invalid recipients; RSET/EHLO/QUIT/abort/oversize endings) against the real manager and stores; after every transaction the whole store is snapshotted and compared with a reference model computed from the observed replies. Held on the K sessions counted in the evidence; the input space is unbounded, so this is sampling.",
@@ -24,7 +47,7 @@ P = {
   "runtime monitoring: trace-automaton oracle over live SMTP sessions + exhaustive disconnect-offset enumeration"),
  "C04": ("exploration",
   "Hundreds of thousands of grammar-generated and byte-mutated addresses (only those RCPT accepts) are evaluated in all three naming modes against metamorphic relations (non-empty, fixed point, case-insensitive, +extension-insensitive, equals the reference naming for addresses built from parts); an end-to-end slice delivers over SMTP and fetches through every REST/web UI route by address, by name and by case-flipped address.",
-  "Only the classes of address shapes the generator produces are covered; names containing '/' are skipped in the end-to-end slice (C14's finding); POP3 USER is exercised but not judged.",
+  "Only the classes of address shapes the generator produces are covered; names containing '/' are skipped in the end-to-end slice (C14's finding); POP3 is asked by the mailbox name only (it does no address parsing).",
   "runtime monitoring: metamorphic oracle over the exported naming functions + end-to-end lookup through the HTTP handlers"),
  "C05": ("exploration",
   "Configurations are loaded through the environment and config.Process (so the documented lower-casing is on the path); the exported predicates are compared with an independent policy model for every (configuration, domain) pair; live SMTP sessions check MAIL/RCPT reply classes, the recipient limit and what is stored; MatchWithWildcards is compared with an independent matcher exhaustively over all short patterns/subjects and on random long ones.",
@@ -36,7 +59,7 @@ P = {
   "runtime monitoring: boundary-value exploration with a two-sided size oracle over live SMTP sessions"),
  "C07": ("exploration",
   "The same generated operation sequences (add/get/latest/list/mark-seen/remove/purge/visit over several mailboxes incl. lock-bucket-sharing pairs and odd names) are applied to the real memory store and the real file store; every return value is compared with the ordered-mailbox reference model after every operation and the two back-ends with each other.",
-  "Ids are opaque outputs (only freshness is demanded); empty mailboxes reported by VisitMailboxes are ignored.",
+  "Ids are opaque outputs (only freshness is demanded); empty mailboxes reported by VisitMailboxes are ignored; known genuine findings print KNOWN-FINDING (known_findings.json).",
   "runtime monitoring: model-based differential testing of both stores against an executable reference model"),
  "C08": ("exploration",
   "Sequential histories over every cap x size-limit combination with varying message sizes, removes and purges; after every operation the complete store state must equal the reference model with cap and limit (survivors, order, total bytes, immediate retrievability of the message just delivered).",
@@ -94,6 +117,8 @@ def main():
     for p in props:
         pid = p["id"]
         level, text, note, tech = P[pid]
+        if pid in EXTRA:
+            text = text + " " + EXTRA[pid]
         if pid in READY:
             checks.append({
                 "property_id": pid,
